@@ -1,10 +1,10 @@
 """C17 — event queue: nothing lost, duplicated or reordered; injections delivered once (EventQueue.tla).
 
 Binding B1: TLC enumerates every interleaving of {viewer polls (fresh ack / repeated ack after a
-lost response), simulator answers with 1-2 events of several shapes (untemplated with a map / array / string / undef /
-integer body, templated with a complete body, an omitted block or an empty block, one the proxy's own handling
-raises on, region-announcing incl. a template-complete CrossedRegion),
-addons swallow any subset of the plain events, addon injects, non-200 answer, region teardown}
+lost response), simulator answers with 1-3 events of several shapes (untemplated with a map / array /
+string / undef / integer body, three value-equal events, templated with a complete body / an omitted block /
+an empty block, one the proxy's own handling raises on, region-announcing incl. a template-complete CrossedRegion),
+addons swallow any subset of the non-announcing events (by position), addon injects, non-200 answer, region teardown}
 up to the depth bound.  Every edge is replayed into a fresh real Session / ProxiedRegion behind the
 real MITMProxyEventManager._handle_request / _handle_response (mitmproxy flows, state-serialised
 between the request and the response phase), with a scripted swallowing addon registered through
@@ -38,16 +38,22 @@ _SM = None
 
 
 class ScriptedAddon:
-    """An addon that swallows the events it is told to and logs what it is shown."""
+    """An addon that swallows the events at the POSITIONS it is told to (the k-th event it is shown of the current
+    response: value-equal events cannot be told apart by content) and logs what it is shown."""
 
     def __init__(self):
-        self.swallow = set()
+        self.plan = []        # per position of the current response: swallow?
+        self.calls = 0
         self.seen = []
+
+    def script(self, plan):
+        self.plan, self.calls = list(plan), 0
 
     def handle_eq_event(self, session, region, event):
         vid = event.get("verif") if isinstance(event, dict) else None
         self.seen.append(vid)
-        return True if vid in self.swallow else None
+        k, self.calls = self.calls, self.calls + 1
+        return True if k < len(self.plan) and self.plan[k] else None
 
 
 def _handle(r):
@@ -81,7 +87,14 @@ class World:
         AddonManager.init([], self.sm, [self.addon])
         self.em = MITMProxyEventManager(self.sm, self.sm.flow_context)
         self.inflight = None
+        self.vis = {}         # stream position of an event -> its viewer-visible content id (differs for "eq" events)
         self.handed = {}      # request ack -> last event-carrying body handed to the viewer for a poll with that ack
+
+    def visible(self, pl):
+        """projection of a model payload: stream positions -> the content the viewer / an addon can see"""
+        if isinstance(pl, dict) and isinstance(pl.get("evs"), list):
+            return dict(pl, evs=[self.vis.get(e, e) for e in pl["evs"]])
+        return pl
 
     # --- events ---------------------------------------------------------------------------
     def event(self, vid, kind):
@@ -89,7 +102,7 @@ class World:
         from hippolyzer.lib.base.message.llsd_msg_serializer import LLSDMessageSerializer
         from hippolyzer.lib.base.message.message import Message, Block
         k, x = kind["k"], kind["reg"]
-        if k == "p":
+        if k in ("p", "eq"):
             ev = {"message": "VerifPlainEvent", "body": {"n": vid}}
         elif k in ("ba", "bs", "bu", "bi"):
             # an untemplated event whose body is not a map: LLSD array / string / undef / integer
@@ -189,9 +202,13 @@ class World:
             return impl_call(go)
         if n == "SimRespond":
             def go():
-                self.addon.swallow = set(act["swallow"])
+                self.addon.script([v in act["swallow"] for v in act["evs"]])
                 st, self.inflight = self.inflight, None
-                evs = [self.event(v, k) for v, k in zip(act["evs"], act["batch"])]
+                # "eq" events of one response are equal in value: all carry the content of the first of them
+                eqs = [v for v, k in zip(act["evs"], act["batch"]) if k["k"] == "eq"]
+                for v in eqs:
+                    self.vis[v] = eqs[0]
+                evs = [self.event(self.vis.get(v, v), k) for v, k in zip(act["evs"], act["batch"])]
                 out = self.respond(st, 200, {"id": act["id"], "events": evs})
                 self.handed[self.inflight_ack] = out
                 return out
@@ -223,8 +240,9 @@ class World:
     def observe(self, obs):
         bad = []
         n = 2
-        if self.addon.seen != obs["seen"]:
-            bad.append(("addon-log", obs["seen"], list(self.addon.seen)))
+        exp_seen = [self.vis.get(x, x) for x in obs["seen"]]
+        if self.addon.seen != exp_seen:
+            bad.append(("addon-log", exp_seen, list(self.addon.seen)))
         exp_regs = [list(ADDRS[1])] + [list(ADDRS[x]) for x in obs["regs"]]
         got_regs = [list(r.circuit_addr) for r in self.session.regions]
         if got_regs != exp_regs:
@@ -232,7 +250,7 @@ class World:
         # --- probes (the object is discarded afterwards) ---
         st, r = impl_call(self.poll, obs["cack"])
         n += 1
-        exp = obs["cpl"] if obs["cpl"]["k"] == "events" else {"k": "fwd"}
+        exp = self.visible(obs["cpl"]) if obs["cpl"]["k"] == "events" else {"k": "fwd"}
         if st != "ok" or not same_body(exp, r[0]) or (exp["k"] == "events" and r[0] != self.handed.get(obs["cack"])):
             bad.append(("probe: poll with the cached ack", exp, r[0] if st == "ok" else r))
         st, r = impl_call(self.poll, PROBE_ACK)
@@ -240,7 +258,7 @@ class World:
         if st != "ok" or r[0] != {"k": "fwd"}:
             bad.append(("probe: poll with an unrelated ack", {"k": "fwd"}, r[0] if st == "ok" else r))
         else:
-            self.addon.swallow = set()
+            self.addon.script([])
             st, r2 = impl_call(self.respond, r[1], 200,
                                {"id": 424242, "events": [self.event(PROBE_EVENT, {"k": "p", "reg": 0})]})
             n += 1
@@ -310,8 +328,8 @@ def _replay_chunk(edge_ids):
         queries += 1
         if st != "ok":
             bad.append(("action raised", e["out"], got))
-        elif not same_body(e["out"], got):
-            bad.append(("body handed to the viewer", e["out"], got))
+        elif not same_body(w.visible(e["out"]), got):
+            bad.append(("body handed to the viewer", w.visible(e["out"]), got))
         n, b2 = w.observe(e["obs"])
         queries += n
         bad += b2
@@ -383,13 +401,14 @@ def run(chk: Check):
         "addons swallow only events that announce no region (registration after a swallowed announcement is left open)",
         "what was owed or queued at a region teardown is dropped with the region; the simulator does not answer a poll "
         "that was outstanding at teardown",
-        "events are identified by an extra key on the event map, which the proxy hands through untouched",
+        "events are identified by an extra key on the event map, which the proxy hands through untouched; value-equal "
+        "events share it and are told apart by position only (the scripted addon swallows by position)",
         "every event map has a 'message' and a 'body' key (the body may be undef)",
         "a response the proxy gives up rewriting (its handling of an event raised) reaches the viewer untouched and is not "
         "remembered for replay (the unchanged code's outcome, taken as the specification's); such a response is not lost",
     ]
     if chk.tier == "quick":
-        _b1(chk, dict(MaxEv=4, MaxInj=2, MaxDown=1, Batches="1,2,3,4,5,6,7,8,9,10,11", Depth=7), "ev4-d7", 6000)
+        _b1(chk, dict(MaxEv=4, MaxInj=2, MaxDown=1, Batches="1,2,3,4,5,6,7,8,9,10,11,12", Depth=7), "ev4-d7", 6000)
     else:
-        _b1(chk, dict(MaxEv=5, MaxInj=2, MaxDown=1, Batches="1,2,3,4,5,6,7,8,9,10,11", Depth=9), "ev5-d9", 60000)
+        _b1(chk, dict(MaxEv=5, MaxInj=2, MaxDown=1, Batches="1,2,3,4,5,6,7,8,9,10,11,12", Depth=9), "ev5-d9", 60000)
     chk.cov["exhaustive"] = True
